@@ -27,6 +27,12 @@ theorem Forall2.append {α β : Type} {R : α → β → Prop} {as as' : List α
   | nil => exact h'
   | cons hd _ ih => exact .cons hd ih
 
+theorem Forall2.imp_mem {α β : Type} {R S : α → β → Prop} {as : List α} {bs : List β} (h : Forall2 R as bs)
+    (hRS : ∀ a ∈ as, ∀ b, R a b → S a b) : Forall2 S as bs := by
+  induction h with
+  | nil => exact .nil
+  | cons hd _ ih => exact .cons (hRS _ (by simp) _ hd) (ih (fun a ha => hRS a (by simp [ha])))
+
 theorem Forall2.imp {α β : Type} {R S : α → β → Prop} {as : List α} {bs : List β} (h : Forall2 R as bs)
     (hRS : ∀ a b, R a b → S a b) : Forall2 S as bs := by
   induction h with
